@@ -22,7 +22,7 @@ pub fn alphabet() -> Vec<&'static str> {
 }
 
 /// ask git which of the source entries are ignored under this .gitignore
-fn git_ignored(w: &Worker, scen: &Scenario) -> Result<BTreeSet<String>, String> {
+pub fn git_ignored(w: &Worker, scen: &Scenario) -> Result<BTreeSet<String>, String> {
     let repo = format!("{}/gitrepo", w.base_ext4);
     let stamp = format!("{}/.stamp", repo);
     let paths: Vec<String> = scen.tree.iter().filter(|e| e.path.starts_with("src/")).map(|e| e.path["src/".len()..].to_string()).collect();
@@ -122,7 +122,7 @@ pub fn judge(w: &Worker, scen: &Scenario, ex: &Exec) -> Judgement {
                 }
             }
         }
-    } else if !ex.res.outcome.is_hang() {
+    } else if !ex.res.outcome.is_hang() && ex.res.hit_sites.is_empty() {
         v.push(format!("valid copy ends with {}", ex.res.outcome.short()));
     }
     simple_judge(v, ex, nontrivial)
@@ -180,6 +180,51 @@ pub fn run(ctx: &Ctx) -> Report {
     let oracle_errors: Vec<String> = st.outcomes.keys().filter(|k| k.starts_with("ORACLE-ERROR")).cloned().collect();
     rep.part("gitignore texts x drivers", st, serde_json::json!({"lines": lines, "alphabet": alphabet(), "scenarios": n}));
     rep.machinery_errors.extend(oracle_errors);
+    // the ignore file itself may be unreadable: that must not silently mean "nothing is ignored"
+    {
+        let w = Worker::new(42, &ctx.pool.bins);
+        let mut jobs = vec![];
+        let mut errs = vec![];
+        let mut nsites = 0;
+        for d in drivers() {
+            let mut tree = tree_base();
+            tree.push(Entry::file("src/.gitignore", "d/\x0a*.txt\x0a"));
+            let s = Scenario::new(&format!("gitignore-faults-{}", d), tree, &["-r", "--gitignore", "--driver", d, "-w", "2", "src", "dst"]);
+            let sa = std::sync::Arc::new(s.clone());
+            let base = RunSpec::base(Policy::P0);
+            let rec = match w.run(&s, &base) {
+                Ok(r) => r,
+                Err(e) => {
+                    errs.push(format!("recording run of {}: {}", s.name, e));
+                    continue;
+                }
+            };
+            let mut cnt: std::collections::BTreeMap<(usize, String), usize> = std::collections::BTreeMap::new();
+            for e in &rec.events {
+                let c = cnt.entry((e.th, e.name.clone())).or_insert(0);
+                *c += 1;
+                let on_gi = e.rel.as_deref() == Some("src/.gitignore");
+                let errnos: Vec<i32> = match e.name.as_str() {
+                    "openat" | "open" if on_gi => vec![libc::EACCES, libc::EIO, libc::EMFILE],
+                    "read" if on_gi => vec![libc::EIO],
+                    "statx" | "newfstatat" | "fstat" if on_gi => vec![libc::EIO],
+                    // the filter asks whether an entry is a directory (directory-only patterns)
+                    "statx" | "newfstatat" | "stat" | "lstat" if e.rel.as_deref().map(|r| r.starts_with("src/")).unwrap_or(false) => vec![libc::EIO, libc::EACCES],
+                    "getdents64" if e.rel.as_deref().map(|r| r.starts_with("src")).unwrap_or(false) => vec![libc::EIO],
+                    _ => vec![],
+                };
+                for en in errnos {
+                    nsites += 1;
+                    let mut sp = base.clone();
+                    sp.faults.push(crate::sup::Fault { call: e.name.clone(), thread: Some(rec.threads[e.th].clone()), nth: Some(*c), path_contains: None, action: crate::sup::Action::Errno(en) });
+                    jobs.push((sa.clone(), sp, 0usize));
+                }
+            }
+        }
+        let st = crate::explore::explore(&ctx.pool, jobs, j);
+        rep.part("every open / read / stat of the .gitignore file, and every stat / listing of a source entry, failing", st, serde_json::json!({"fault_runs": nsites}));
+        rep.machinery_errors.extend(errs);
+    }
     rep.assumptions = vec!["git (2.39) is the specification of the pattern semantics".into()];
     rep
 }
